@@ -25,13 +25,16 @@ CFG = {
              "neighbours of 1e21 / 1e-6 / 1e-7 / 2^53, 17-significant-digit doubles, powers of two, subnormals, max double; "
              "BigInt, symbols, functions, undefined, cycles, toJSON family) x replacer "
              "(none / allow-list / function family) x space (every legal form), observed: text or undefined or error class, "
-             "JSON.parse of that text, Object.MarshalJSON; non-trivial = parse text of >= 3 units or a value containing an "
+             "JSON.parse of that text, Object.MarshalJSON; about 6 % histories: 2..5 serialisations on ONE runtime "
+             "(Object.MarshalJSON through the Go API with the returned slice RETAINED un-copied, JSON.stringify from a script), "
+             "each result observed right after its call (a copy) and again after the whole history; non-trivial = parse text of >= 3 units or a value containing an "
              "array/object; distinct = by hash of the case"),
     "theorem_names": ["parse_sound", "parse_complete", "parse_iff_derives", "parse_rejects", "derives_functional",
                       "parse_print_gap_roundtrip", "parse_print_roundtrip", "print_derives", "print_parse_canonical",
                       "print_idempotent", "canonical_form_decides", "derives_wf", "quote_roundtrip", "quote_safe",
                       "quote_wellformed", "stringify_json_shaped", "stringify_parse_roundtrip", "gap_of_number_ws",
-                      "marshal_agrees", "symbol_wrapper_is_object"],
+                      "marshal_agrees", "symbol_wrapper_is_object", "history_result_stable",
+                      "history_marshal_is_stringify"],
     "allowed_axioms": [],
     "trusted_base": [
         "Coq 8.16.1 kernel + vm_compute (no native_compute); theorems closed under the global context (no axioms)",
